@@ -3,6 +3,16 @@
 import json, glob, os
 
 STRENGTHENED = {
+ 'C01d-early-replicate-commit-cap-neutralised': 'the E2 learner stage (single voter + non-voting replica, power loss between the early Replicate and SaveRaftState) reports the same observation in terms of C01 and is registered for C01',
+ 'C04d-ondisk-shrink-before-sync': 'crash sites at the user state machine boundary (exit of RecoverFromSnapshot, entry of the first Sync after it, entry / exit of SaveSnapshot, any Sync); power loss of the follower while it is being caught up by snapshot in the catch-up cycles; replay stage registered for C04',
+ 'C05d-empty-result-not-recorded-in-session': 'rsmcheck user state machine returns boundary results: the zero Result, a zero value with data, an empty non-nil Data',
+ 'C08d-received-snapshot-files-not-fsynced': 'snapcheck/chunks runs on a strict file system and ends every script with a power loss: a finalized, announced snapshot must survive byte for byte; registered for C08 and C16',
+ 'C16d-streamed-snapshot-tail-chunk-not-fsynced': '(same power loss; besides, the white-box sscrash stage caught it as it was)',
+ 'C09d-removenodedata-leaves-entries': 'storecheck model: after RemoveNodeData nothing saved before may be reported again (ReadRaftState first index); two scripted sequences (replica comes back, in the same process and after a reopen, through a snapshot inside its old log)',
+ 'C11d-ondisk-index-not-initialised-at-open': 'rsmcheck/twins (delivery through snapshot or Update, never both, never neither; Open index of on-disk state machines) registered for C11',
+ 'C12d-key-generator-seed-reused-across-restarts': 'requests stage: one NoOP session object per host kept across restarts; directed double in-process restart (snapshot first, a short incarnation whose proposals are the tail of the log, the next incarnation replays them slowly while it makes its first proposals)',
+ 'C13d-last-chunk-size-modulo-again': '(same idea as C15b, found again) the E2 wire stage with external snapshot files of exactly 1 and 2 chunks is registered for C13; the codec stages do not see it (every codec still round-trips), C15 does in every run',
+ 'C14d-shrunk-snapshot-keeps-compression-type': '-',
  'C01c-readindex-batch-aliases-queue': 'E2 clients now wait for a result only as long as the replica needs to process 4x the deadline in ticks (+200): the reads that this change leaves without any result no longer hang the clients until the watchdog (first trial: watchdog, then the crash key)',
  'C02c-maxindex-record-never-shrinks': 'E1: one case in eight keeps the raft state of every replica in a real sharded Pebble store that is reopened at restart; the recovered log and hard state are compared with what was saved (C02 / C03 / C04)',
  'C03c-pebble-cache-ignores-vote': '(same: real store under E1, vote-lost-across-restart)',
@@ -53,6 +63,6 @@ def main():
         files = sorted(set(l[6:] for l in patch.splitlines() if l.startswith('+++ b/')))
         conf = m.get('confirmed_on_repo', {}).get('quick', [])
         c = '; '.join(f"{x['command'].split('./check ')[1].split(';')[0]}: {'**caught** (' + ', '.join(k[:60] for k in x['keys'][:2]) + ')' if x['exit'] == 1 else 'silent' if x['exit'] == 0 else 'rc %d' % x['exit']}" for x in conf) or 'not run'
-        print(f"| {name} | {', '.join(files)} | {fmt_checks(m.get('checks', {}))} | {STRENGTHENED.get(name, '-')} | {c} |")
+        print(f"| {name} | {', '.join(files)} | {fmt_checks(m.get('first_trial') or m.get('checks', {}))} | {STRENGTHENED.get(name, '-')} | {c} |")
 
 main()
